@@ -74,6 +74,7 @@ def tkind(ttype):
 
 def check_tokens(text, toks, bag, w):
     li = R1.LineIndex(text)
+    rlex = R1.Lexer(text)
     pos = 0
     prev = None
     real = [t for t in toks if t[0] != 'AUTOSEMI']
@@ -127,6 +128,26 @@ def check_tokens(text, toks, bag, w):
                     ttype == 'SETPROP' and value == 'set'):
                 bag.add('C06|identifier-typed-as-keyword|%s' % ttype, w,
                         'token %r typed %s' % (value, ttype))
+        # a numeric literal / an identifier name is one token: it extends
+        # as far as the ES5 lexical grammar reads it from the same offset
+        ref_end = None
+        try:
+            if ttype == 'NUMBER':
+                ref_end = rlex.number(lexpos).end
+            elif ttype not in ('STRING', 'REGEX', 'LINE_COMMENT',
+                               'BLOCK_COMMENT', 'LINE_TERMINATOR') and \
+                    value[:1] != '\\' and (
+                        value[:1].isalpha() or value[:1] in '$_' or
+                        ord(value[:1] or ' ') > 127):
+                ref_end = rlex.identifier(lexpos).end
+        except (R1.LexError, R1.Abstain, IndexError):
+            ref_end = None
+        if ref_end is not None and ref_end != end:
+            bag.add('C06|literal-or-name-split|%s' % (
+                'NUMBER' if ttype == 'NUMBER' else 'word'), w,
+                'token %r at %d, the ES5 lexical grammar reads %r there' % (
+                    value, lexpos, text[lexpos:ref_end]))
+            return
         # line / column
         el, ec = li.linecol(lexpos)
         if (lineno, colno) != (el, ec):
